@@ -355,6 +355,13 @@ def run(repo: Repo, chk: Check, thorough: bool = False) -> None:
                 cfg = CFG(colz)
                 ell = [cfg.stmt_of(c) for st in h.body for c in ast.walk(st) if isinstance(c, ast.Call) and call_name(c) == 'append'
                        and c.args and 'ELLIPSIS' in norm(c.args[0])]
+                # ... or calls a private method of the colorizer every path of which appends it (`self._mark_truncated(state.result)`)
+                for c in [c for st in h.body for c in ast.walk(st) if isinstance(c, ast.Call)]:
+                    for g in [g for g in repo.funcs.values() if g.cls is colz.cls and g is not colz and g.name == call_name(c) and g.name.startswith('_')]:
+                        cg_ = CFG(g)
+                        ge = [cg_.stmt_of(x) for x in calls_in(g) if call_name(x) == 'append' and x.args and 'ELLIPSIS' in norm(x.args[0])]
+                        if ge and cg_.must_pass(cg_.ENTRY, cg_.EXIT, ge, no_exc=True):
+                            ell.append(cfg.stmt_of(c))
                 flagv = _complete_flag(colz)
                 inc = [n for st in h.body for n in ast.walk(st) if isinstance(n, ast.Assign) and
                        any(isinstance(x, ast.Name) and x.id == flagv for x in n.targets) and
